@@ -197,4 +197,76 @@ func TestAST(t *testing.T) {
 	})
 }
 
+// Notes on lines that several values share: a note belongs to the value that stands right before
+// it on its line (rules may not be written there at all; notes may).
+const chkShared = "notes-on-shared-lines"
+
+type SharedLineCase struct {
+	Schema string   `json:"schema"`
+	Notes  []string `json:"expected_notes_of_the_children_in_order"`
+	Root   string   `json:"expected_note_of_the_root"`
+}
+
+func init() {
+	run.RegisterReplay(chkShared, func(t run.TB, raw json.RawMessage) {
+		var c SharedLineCase
+		if err := json.Unmarshal(raw, &c); err != nil {
+			t.Fatalf("bad case: %v", err)
+		}
+		checkSharedLine(t, c)
+	})
+}
+
+func checkSharedLine(t run.TB, c SharedLineCase) {
+	s, _ := lib.Build(lib.Spec{Schema: c.Schema})
+	n, r := lib.AST(s)
+	if r.Panic != "" {
+		run.Fail(t, chkShared, c, "GetAST panicked: %s", r.Panic)
+	}
+	if !r.OK {
+		run.Fail(t, chkShared, c, "GetAST rejects a schema whose only annotations are notes: %v", r)
+	}
+	if n.Comment != c.Root {
+		run.Fail(t, chkShared, c, "the root carries the note %q, written: %q", n.Comment, c.Root)
+	}
+	if len(n.Children) != len(c.Notes) {
+		run.Fail(t, chkShared, c, "the tree has %d children, the text %d values", len(n.Children), len(c.Notes))
+	}
+	for i, ch := range n.Children {
+		if ch.Comment != c.Notes[i] {
+			run.Fail(t, chkShared, c, "child %d (%s %s) carries the note %q, the note written after it on its line is %q", i, ch.Key, ch.Value, ch.Comment, c.Notes[i])
+		}
+	}
+}
+
+func TestNotesOnSharedLines(t *testing.T) {
+	run.SkipIfReplaying(t)
+	defer run.Done(t, chkShared)
+	rapid.Check(t, func(t *rapid.T) {
+		nl := rapid.SampledFrom([]string{"\n", "\r\n", "\r"}).Draw(t, "nl")
+		note := func(l string) string {
+			return rapid.SampledFrom([]string{"first", "the id", "x - y", "a {b}", "second one"}).Draw(t, l)
+		}
+		n1, n2 := note("n1"), note("n2")
+		var c SharedLineCase
+		switch rapid.SampledFrom([]int{0, 1, 2, 3, 4, 6}).Draw(t, "layout") {
+		case 0: // the first property on the line of the opening brace
+			c = SharedLineCase{Schema: "{\"id\": 1, // " + n1 + nl + "  \"b\": 2 // " + n2 + nl + "}", Notes: []string{n1, n2}}
+		case 1: // the first item on the line of the opening bracket
+			c = SharedLineCase{Schema: "[1, // " + n1 + nl + "  2" + nl + "]", Notes: []string{n1, ""}}
+		case 2: // two items on a line: the note is the second one's
+			c = SharedLineCase{Schema: "[" + nl + "  1, 2 // " + n1 + nl + "]", Notes: []string{"", n1}}
+		case 3: // block notes between the items of one line
+			c = SharedLineCase{Schema: "[1 /* " + n1 + " */, 2 /* " + n2 + " */]", Notes: []string{n1, n2}}
+		case 4: // two properties on a line
+			c = SharedLineCase{Schema: "{" + nl + "  \"a\": 1, \"b\": 2 // " + n1 + nl + "}", Notes: []string{"", n1}}
+		default: // three items, block notes on the first and the last
+			c = SharedLineCase{Schema: "[" + nl + "  1 /* " + n1 + " */, true, \"s\" // " + n2 + nl + "]", Notes: []string{n1, "", n2}}
+		}
+		checkSharedLine(t, c)
+		run.Eval(chkShared, true, c.Schema)
+		run.Sample(chkShared, c)
+	})
+}
+
 func TestReplay(t *testing.T) { run.TestReplay(t) }
